@@ -18,6 +18,7 @@ IMPORT_CHOICES = [
     ("from shapes import *\n", "Square"),
     ("import json as js, sys\n", "js.dumps([1])"),
     ("from typing import Any, Sequence\n", None),          # typing names nothing uses (e.g. only in `# type:` comments)
+    ("from geo import *\n", None),                         # a star import of the PACKAGE whose submodule the stub imports `Point` from
 ]
 
 
@@ -35,12 +36,16 @@ def gen_source(rng, idx):
     existing_tc = rng.random() < 0.35
     tc_block = "from typing import TYPE_CHECKING\nif TYPE_CHECKING:\n    from geo.points import Point\n" if existing_tc else ""
     local_import = rng.random() < 0.5
-    if idx % 10 == 0 and not any("import *" in p[0] for p in picks):
+    if idx % 10 == 0 and not any("from shapes import *" in p[0] for p in picks):
         # deterministically: a source that star-imports the module the stub needs `Circle` from, and relies on it
-        picks.append(next(c for c in IMPORT_CHOICES if "import *" in c[0]))
+        picks.append(next(c for c in IMPORT_CHOICES if "from shapes import *" in c[0]))
         imports = "".join(p[0] for p in picks)
         uses = [p[1] for p in picks if p[1]]
-    star = any("import *" in p[0] for p in picks)
+    if idx % 10 == 7 and not any("from geo import *" in p[0] for p in picks):
+        # deterministically: a star import of the package `geo`; `from geo.points import Point` is still a new import
+        picks.append(next(c for c in IMPORT_CHOICES if "from geo import *" in c[0]))
+        imports = "".join(p[0] for p in picks)
+    star = any("from shapes import *" in p[0] for p in picks)
     make_local = not (star and (idx % 10 == 0 or rng.random() < 0.5))       # with the star import `make` may rely on it for Circle
     if idx % 10 == 0:
         local_import = False
